@@ -41,7 +41,8 @@ def gen_pipeline(r):
     if r.random() < 0.4:
         spec.append(('det',))
     if r.random() < 0.35:
-        spec.append(('prefetch', 1 if any(s[0] in ('local', 'apply') for s in spec) else r.choice([1, 2])))
+        spec.append(('prefetch', 1 if any(s[0] in ('local', 'apply') for s in spec) else r.choice([1, 2]),
+                     'plain' if any(s[0] == 'local' for s in spec) else r.choice(['plain', 'plain', 'catch', 'catchcls'])))       # catching needs position access: not above a local shuffle
     return spec, nrng
 
 
@@ -68,7 +69,10 @@ def build(ld, spec, rngs):
         elif st[0] == 'apply':
             ds = ds.apply(ApplyShuffle(rngs[st[1]]), lazy=True)
         elif st[0] == 'prefetch':
-            ds = ds.prefetch(st[1], st[1] + 1)
+            # the same stage with examples being caught (nothing raises here): the epoch orders are those of the plain spelling
+            if len(st) < 3 or st[2] == 'plain': ds = ds.prefetch(st[1], st[1] + 1)
+            elif st[2] == 'catch': ds = ds.prefetch(st[1], st[1] + 1, catch_filter_exception=True)
+            else: ds = ds.prefetch(st[1], st[1] + 1, catch_filter_exception=(KeyError, ld.FilterException))
     return ds, once
 
 
